@@ -383,18 +383,35 @@ fn wiring_commands(kind: &str, n: usize) -> Vec<String> {
 /// Err((signature, detail)) when the node rebuilt from the store after a graceful shutdown does not hold (or serve)
 /// what the first node held.
 fn wiring_case(kind: &str, n: usize, max_deltas: usize, flush_interval_ms: u64) -> Result<u64, (String, String)> {
+    let store = Arc::new(VObjStore::new());
+    wiring_case_on(store.clone(), "", kind, n, max_deltas, flush_interval_ms)?;
+    Ok(store.log_len() as u64)
+}
+
+/// the same over the repository's local-filesystem object store in a scratch directory (removed afterwards)
+fn wiring_case_local_fs(kind: &str, n: usize, max_deltas: usize, flush_interval_ms: u64) -> Result<u64, (String, String)> {
+    static SERIAL: AtomicU64 = AtomicU64::new(0);
+    let dir = std::env::temp_dir().join(format!("verif-c12-{}-{}", std::process::id(), SERIAL.fetch_add(1, Ordering::Relaxed)));
+    let _ = std::fs::remove_dir_all(&dir);
+    std::fs::create_dir_all(&dir).map_err(|e| ("harness: scratch directory".to_string(), e.to_string()))?;
+    let store = Arc::new(redis_sim::streaming::LocalFsObjectStore::new(dir.clone()));
+    let r = wiring_case_on(store, " [local filesystem store]", kind, n, max_deltas, flush_interval_ms);
+    let _ = std::fs::remove_dir_all(&dir);
+    r.map(|_| 0).map_err(|(sig, d)| (format!("{sig} local-fs"), d))
+}
+
+fn wiring_case_on<S: redis_sim::streaming::ObjectStore + Clone + Send + Sync + 'static>(store: Arc<S>, store_label: &str, kind: &str, n: usize, max_deltas: usize, flush_interval_ms: u64) -> Result<(), (String, String)> {
     use redis_sim::production::ReplicatedShardedState;
     use redis_sim::replication::ReplicationConfig;
     use redis_sim::streaming::{StreamingConfig, StreamingIntegration};
     let rt = tokio::runtime::Builder::new_current_thread().enable_time().start_paused(true).build().unwrap();
     rt.block_on(async {
-        let store = Arc::new(VObjStore::new());
         let mut cfg = StreamingConfig::test();
         cfg.prefix = PREFIX.to_string();
         cfg.write_buffer.max_deltas = max_deltas;
         cfg.write_buffer.flush_interval = Duration::from_millis(flush_interval_ms);
         cfg.compaction.max_segments = 0; // the compaction worker is C13's subject
-        let desc = format!("{n} commands ({kind}) through the delta sink, write buffer max_deltas={max_deltas} flush_interval={flush_interval_ms}ms, graceful shutdown, recovery into a new node");
+        let desc = format!("{n} commands ({kind}) through the delta sink, write buffer max_deltas={max_deltas} flush_interval={flush_interval_ms}ms, graceful shutdown, recovery into a new node{store_label}");
         let repl = ReplicationConfig { enabled: true, replica_id: 1, ..Default::default() };
         let integ = StreamingIntegration::with_store(store.clone(), cfg.clone(), 1);
         let mut node = ReplicatedShardedState::new(repl.clone());
@@ -419,7 +436,7 @@ fn wiring_case(kind: &str, n: usize, max_deltas: usize, flush_interval_ms: u64) 
             let missing = want.keys().filter(|k| !got.contains_key(*k)).count();
             return Err((
                 format!("wiring: state-after-restart!=state-before-shutdown {}", if missing > 0 { "keys-missing" } else { "values-differ" }),
-                format!("{desc}: key {k}: before the shutdown the node held {:?}, the recovered node holds {:?} ({missing} of {} keys missing; {} store operations)", want.get(k), got.get(k), want.len(), store.log_len()),
+                format!("{desc}: key {k}: before the shutdown the node held {:?}, the recovered node holds {:?} ({missing} of {} keys missing)", want.get(k), got.get(k), want.len()),
             ));
         }
         // what clients read must agree too
@@ -430,7 +447,7 @@ fn wiring_case(kind: &str, n: usize, max_deltas: usize, flush_interval_ms: u64) 
                 return Err(("wiring: reads-after-restart-differ".to_string(), format!("{desc}: TYPE {k} was {} and is {} after the restart", vh::resp::show(&t1), vh::resp::show(&t2))));
             }
         }
-        Ok(store.log_len() as u64)
+        Ok(())
     })
 }
 
@@ -440,7 +457,8 @@ fn main() {
     if let Some(path) = &args.replay {
         let r = vh::report::load_replay(path);
         if r["wiring"] == json!(true) {
-            match wiring_case(r["kind"].as_str().unwrap(), r["n"].as_u64().unwrap() as usize, r["max_deltas"].as_u64().unwrap() as usize, r["flush_interval_ms"].as_u64().unwrap()) {
+            let f = if r["local_fs"] == json!(true) { wiring_case_local_fs } else { wiring_case };
+            match f(r["kind"].as_str().unwrap(), r["n"].as_u64().unwrap() as usize, r["max_deltas"].as_u64().unwrap() as usize, r["flush_interval_ms"].as_u64().unwrap()) {
                 Err((sig, detail)) => {
                     println!("{detail}");
                     println!("VIOLATION property=C12 replay={} ({sig})", path.display());
@@ -565,6 +583,15 @@ fn main() {
     // the whole wiring
     let wiring_items: Vec<(usize, usize, u64)> = (0..WIRING_WORKLOADS.len()).flat_map(|w| [(w, 10usize, 0u64), (w, 10, 3_600_000), (w, 100, 3_600_000), (w, 100_000, 3_600_000)]).collect();
     let wiring_ops = AtomicU64::new(0);
+    // ... and a few of them over the repository's local-filesystem store
+    let local_fs_items: Vec<(&str, usize, usize, u64)> = vec![("distinct-sets", 1, 10, 0), ("distinct-sets", 25, 10, 3_600_000), ("set-del-hset-mix", 40, 10, 3_600_000), ("distinct-sets", 101, 100, 3_600_000)];
+    for (kind, n, md, fi) in &local_fs_items {
+        match std::panic::catch_unwind(|| wiring_case_local_fs(kind, *n, *md, *fi)) {
+            Ok(Ok(_)) => {}
+            Ok(Err((sig, detail))) => rep.violation(sig, detail, json!({"wiring": true, "local_fs": true, "kind": kind, "n": n, "max_deltas": md, "flush_interval_ms": fi})),
+            Err(p) => rep.violation("wiring: panic local-fs".to_string(), vh::panic_text(&p), json!({"wiring": true, "local_fs": true, "kind": kind, "n": n, "max_deltas": md, "flush_interval_ms": fi})),
+        }
+    }
     {
         let seen = std::sync::Mutex::new(BTreeSet::new());
         par::par_map(&wiring_items, |_, (w, md, fi)| {
@@ -591,7 +618,7 @@ fn main() {
         "cases_in_which_a_fault_fired": faults_hit.load(Ordering::Relaxed),
         "crash_images_recovered": images.load(Ordering::Relaxed),
         "write_buffer_cases": wb,
-        "whole_wiring": {"cases": wiring_items.len(), "store_operations": wiring_ops.load(Ordering::Relaxed),
+        "whole_wiring": {"cases": wiring_items.len(), "cases_over_the_local_filesystem_store": local_fs_items.len(), "store_operations": wiring_ops.load(Ordering::Relaxed),
             "rule": "a real ReplicatedShardedState with the delta sink of StreamingIntegration::start_workers (bridge task, persistence actor, StreamingPersistence over the logging store; compaction worker off) executes 1 .. 1000 commands (distinct SETs at counts around the buffer limits, overwrites, a SET/DEL/HSET/HDEL/APPEND mix, counters) under four write-buffer configurations (max_deltas 10 with flush interval 0, 10, 100, 100000 with a one-hour interval); after WorkerHandles::shutdown() a new node recovers through StreamingIntegration::recover: its replication state must equal the first node's, and TYPE of the keys must agree"},
         "write_buffer_overlapping_flushes": {"schedules_explored": wb_race_execs, "distinct_outcomes": wb_race_outcomes, "all_schedules_of_every_case_explored": wb_race_exhaustive,
             "programs": WB_PROGRAMS.iter().map(|(a, b)| format!("A=[{a}] B=[{b}]")).collect::<Vec<_>>(),
